@@ -21,7 +21,8 @@ def check(tier="quick", seed=0):
         try:
             d = json.loads(p.stdout)
         except Exception:
-            return {"name": "ground.locations", "error": "worker under %s failed: %s" % (h, p.stderr[-300:]), "obligations": [], "violations": []}
+            from ground.common import worker_failed
+            return worker_failed("ground.locations", h, p.stderr, repo)
         hosts.append(h)
         evals += d["evaluations"]
         tables += d["tables"]
